@@ -1,7 +1,72 @@
+import AuModel.SingleFile
 import Driver.Util
-open Au
+open Au Au.SingleFile
 
-def dispatchC20 : List String → Option String
+/-! Driver commands for C20 (AuModel.SingleFile).
+
+  c20.order <graph> <names>   → `done order=<ids> files=<ids>` | `missing <id>` | `diverges`
+  c20.check <graph>           → `targets=<0|1> dupfree=<0|1> ranked=<0|1> keys=<0|1>`
+  c20.names <au> <units> <constants> <mains> <io>   → `<ids>`          (model of `filenames()`)
+
+  <graph> = `k:i,i,…;k:;…` (entries separated by `;`, an entry is key `:` comma-separated includes),
+  <ids>, <names>, <units>… = comma-separated ids, `-` for the empty list; <io> = id or `-`. -/
+
+namespace C20Drv
+
+def parseIds (s : String) : Option (List Nat) :=
+  if s = "-" then some [] else (s.splitOn ",").mapM (fun t => t.toNat?)
+
+def parseEntry (s : String) : Option (Nat × List Nat) :=
+  match s.splitOn ":" with
+  | [k, l] => do
+    let k ← k.toNat?
+    let l ← if l = "" then some [] else (l.splitOn ",").mapM (fun t => t.toNat?)
+    pure (k, l)
   | _ => none
 
-/-! Driver commands for C20. -/
+def parseGraph (s : String) : Option Graph :=
+  if s = "-" then some [] else (s.splitOn ";").mapM parseEntry
+
+def showIds (l : List Nat) : String :=
+  if l.isEmpty then "-" else ",".intercalate (l.map toString)
+
+def cmdOrder : List String → String
+  | [gs, ns] =>
+    match parseGraph gs, parseIds ns with
+    | some g, some names =>
+      match parseFiles g names with
+      | .missing f => s!"missing {f}"
+      | .outOfFuel => "diverges"
+      | .done files =>
+        match emitOrder g names with
+        | .done order => s!"done order={showIds order} files={showIds files}"
+        | .missing f => s!"missing {f}"
+        | .outOfFuel => "diverges"
+    | _, _ => "bad-op"
+  | _ => "bad-op"
+
+def cmdCheck : List String → String
+  | [gs] =>
+    match parseGraph gs with
+    | some g => s!"targets={b01 (targetsExist g)} dupfree={b01 (dupFree g)} ranked={b01 (rankedById g)} keys={b01 (keysDistinct g)}"
+    | none => "bad-op"
+  | _ => "bad-op"
+
+def cmdNames : List String → String
+  | [au, us, cs, ms, io] =>
+    match au.toNat?, parseIds us, parseIds cs, parseIds ms with
+    | some au, some us, some cs, some ms =>
+      if io = "-" then showIds (filenames au us cs ms none)
+      else match io.toNat? with
+        | some i => showIds (filenames au us cs ms (some i))
+        | none => "bad-op"
+    | _, _, _, _ => "bad-op"
+  | _ => "bad-op"
+
+end C20Drv
+
+def dispatchC20 : List String → Option String
+  | "c20.order" :: args => some (C20Drv.cmdOrder args)
+  | "c20.check" :: args => some (C20Drv.cmdCheck args)
+  | "c20.names" :: args => some (C20Drv.cmdNames args)
+  | _ => none
